@@ -82,7 +82,11 @@ class BayesianBridge(CallableModel):
             return -global_scale.log() - (self.x.tensor.abs() / global_scale) ** alpha
 
     def _sample_shape(self) -> Size:
-        return self.x.tensor.shape[:-1]
+        shapes = [self.x.tensor.shape[:-1]]
+        for p in (self.scale, self.alpha, self.local_scale, self.slab):
+            if isinstance(p, AbstractParameter):
+                shapes.append(p.tensor.shape[:-1])
+        return max(shapes, key=len)
 
     def handle_model_changed(self, model, obj, index) -> None:
         pass
